@@ -8,6 +8,7 @@ SCRATCH = '/var/tmp/sqfvm-verif-replay'
 DRIVERS = {
     'sqf_tokenizer': {'src': 'replay/drivers/sqf_tokenizer.cpp', 'flags': [], 'search_arg': '4'},
     'config_tokenizer': {'src': 'replay/drivers/sqf_tokenizer.cpp', 'flags': ['-DCONFIG_TOK'], 'search_arg': '4'},
+    'pbofile': {'src': 'replay/drivers/pbofile.cpp', 'flags': [], 'search_arg': '0'},
 }
 
 def build_driver(unit):
